@@ -2,6 +2,7 @@ package actionlint
 
 import (
 	"fmt"
+	"sort"
 	"strings"
 )
 
@@ -89,12 +90,18 @@ func (rule *RuleWorkflowCall) checkWorkflowCallUsesLocal(call *WorkflowCall) {
 	}
 
 	// Validate inputs
+	// Missing inputs are reported in the order of their IDs since all the errors are reported at the same position
+	missing := []string{}
 	for n, i := range m.Inputs {
 		if i != nil && i.Required {
 			if _, ok := call.Inputs[n]; !ok {
-				rule.Errorf(u.Pos, "input %q is required by %q reusable workflow", i.Name, u.Value)
+				missing = append(missing, n)
 			}
 		}
+	}
+	sort.Strings(missing)
+	for _, n := range missing {
+		rule.Errorf(u.Pos, "input %q is required by %q reusable workflow", m.Inputs[n].Name, u.Value)
 	}
 	for n, i := range call.Inputs {
 		if _, ok := m.Inputs[n]; !ok {
@@ -116,12 +123,17 @@ func (rule *RuleWorkflowCall) checkWorkflowCallUsesLocal(call *WorkflowCall) {
 
 	// Validate secrets
 	if !call.InheritSecrets {
+		missing := []string{}
 		for n, s := range m.Secrets {
 			if s.Required {
 				if _, ok := call.Secrets[n]; !ok {
-					rule.Errorf(u.Pos, "secret %q is required by %q reusable workflow", s.Name, u.Value)
+					missing = append(missing, n)
 				}
 			}
+		}
+		sort.Strings(missing)
+		for _, n := range missing {
+			rule.Errorf(u.Pos, "secret %q is required by %q reusable workflow", m.Secrets[n].Name, u.Value)
 		}
 		for n, s := range call.Secrets {
 			if _, ok := m.Secrets[n]; !ok {
